@@ -90,3 +90,14 @@ Definition check_case (c : case) : list (N * N * N) :=
   end.
 
 Definition failing (cs : list case) : list (N * N * N) := flat_map check_case cs.
+
+(* the Manager with all sections registered: per section (present in the file, loads on its own [defaults when absent,
+   then the environment]); observed: the Manager accepted, every section's saved form equals the one it saves on its own
+   (in memory, in the written file, and after loading the written file again), a secret occurs in the displayable form *)
+Definition mcase := (N * (list (bool * bool) * bool * bool * bool))%type.
+Definition mcheck (c : mcase) : list (N * N * N) :=
+  let '(id, (secs, ok, saved_eq, leak)) := c in
+  ((if Bool.eqb ok (forallb snd secs) then [] else [(id, 1%N, 0%N)])
+   ++ (if ok && negb saved_eq then [(id, 11%N, 0%N)] else [])
+   ++ (if leak then [(id, 12%N, 0%N)] else []))%list.
+Definition mfailing (cs : list mcase) : list (N * N * N) := flat_map mcheck cs.
